@@ -421,6 +421,10 @@ impl KEnv {
         }
         Ok(())
     }
+    pub fn k_call_read_q<B: KLen + ?Sized>(&self, off: u64, buf: &mut B) -> Qcow2Result<usize> {
+        self.rec(Rec { kind: K_BACKEND_READ, off, len: buf.klen(), ..NOREC });
+        Ok(buf.klen())
+    }
     /// flush_table(t, start, size): a write of `size` bytes at the table's host offset + start
     pub fn k_flush_table<B: Table>(&self, t: &B, start: u32, size: usize) -> KResult<()> {
         self.rec(Rec { kind: K_BACKEND_WRITE, off: t.get_offset().unwrap() + start as u64, len: size,
